@@ -197,6 +197,14 @@ func C11(r *ev.Run) {
 	plan := []Plan{{"async-benign", 900, 40000}, {"byz", 900, 40000}, {"missing-tx", 300, 10000}, {"valset", 300, 10000}, {"sync-perm", 300, 10000}}
 	r.Assume("transport authenticity for the run itself; the injected probes are arbitrary well-typed inputs")
 	if Only < 0 {
+		// directed scenario of the recorded finding (deterministic KNOWN-FINDING line)
+		m := &mon.Hygiene{}
+		b := DirectedLatentCV(m)
+		Report(r, b, m.Viols)
+		Account(r, b, m.Cnt)
+		SampleRun(r, b, "directed scenario "+b.Spec.Profile)
+	}
+	if Only < 0 {
 		// seeded variations of the nested-view-change-inside-OnTransaction history (DESIGN.md §5.5): no panic
 		rng := rand.New(rand.NewSource(r.Seed + 12))
 		for i := 0; i < r.Pick(300, 5000); i++ {
